@@ -153,3 +153,11 @@ META["C19"] = dict(
     note="Trusts the network double's failure injection and the StateView extraction (which is itself the totality probe).",
     technique="runtime monitoring: totality probe on every observed state + reference lists for the voucher logs + porcupine linearizability check of concurrent histories",
 )
+
+META["C01"] = dict(
+    text=("Held on K end-to-end executions of the complete real stack (two nodes, real graphsync over mocknet) with generated DAGs and scenario schedules on a virtual clock: "
+          "whenever the initiator reported Completed, the responder, the receiver's store and the byte totals agreed with an independent walk of the source DAG."),
+    design_ref="DESIGN.md §2 C01",
+    note="Trusts the independent DAG walk and the blockstore comparison; the premise (initiator Completed after acceptance) is checked, not assumed.",
+    technique="runtime monitoring: end-to-end oracle at quiescence (virtual time) over the real two-node stack with injected link cuts, limits, pauses and finalization",
+)
